@@ -42,6 +42,92 @@ class Done(Event):
     tag: int = 0
 
 
+_fast = False
+
+
+def install_fast_pydantic() -> None:
+    """Speed only, no change of behaviour: under CrossHair, when NO argument of a pydantic model constructor is
+    symbolic (checked recursively through dict/list/tuple), run the REAL ``pydantic.BaseModel.__init__`` with the tracer
+    switched off, i.e. natively.  Otherwise fall through to the traced call (where vlib.boot realises symbolic values at
+    the pydantic-core boundary).  Pydantic's per-instance bookkeeping (private-attribute default factories resolved via
+    ``inspect.signature`` on every construction) costs ~20 ms per event object when interpreted opcode by opcode, which
+    is 60% of a reducer tick; natively it is ~20 us.  Arguments are passed through untouched (identity preserved)."""
+    global _fast
+    if _fast:
+        return
+    _fast = True
+    try:
+        from crosshair import register_patch
+        from crosshair.core import CrossHairValue
+        from crosshair.tracers import NoTracing
+        from pydantic import BaseModel
+    except Exception:  # pragma: no cover - native replay without crosshair
+        return
+    _orig_init = BaseModel.__init__
+
+    def _symbolic(v: Any, depth: int) -> bool:
+        if isinstance(v, CrossHairValue):
+            return True
+        if depth <= 0:
+            return True  # unknown depth: be conservative
+        t = type(v)
+        if t is dict:
+            for k, x in v.items():
+                if _symbolic(k, depth - 1) or _symbolic(x, depth - 1):
+                    return True
+            return False
+        if t is list or t is tuple or t is set or t is frozenset:
+            for x in v:
+                if _symbolic(x, depth - 1):
+                    return True
+            return False
+        if t in (int, str, float, bool, bytes, type(None)) or isinstance(v, (type, BaseModel, BaseException)):
+            return False
+        return t.__module__.startswith("crosshair")
+
+    def _init(self, /, **data):  # noqa: ANN001
+        with NoTracing():
+            sym = _symbolic(data, 6)
+            if not sym:
+                _orig_init(self, **data)
+                return
+        _orig_init(self, **data)
+
+    try:
+        register_patch(BaseModel.__init__, _init)
+    except Exception:
+        pass
+
+
+if vlib.boot.under_crosshair():
+    install_fast_pydantic()
+
+
+def native(fn: Any, *a: Any, **kw: Any) -> Any:
+    """Call ``fn`` with the CrossHair tracer off (plain CPython speed).  ONLY for harness-side construction of inputs from
+    concrete values (ticks, result records); never wraps code under test."""
+    if not vlib.boot.under_crosshair():
+        return fn(*a, **kw)
+    from crosshair.tracers import NoTracing, is_tracing
+
+    if not is_tracing():
+        return fn(*a, **kw)
+    with NoTracing():
+        return fn(*a, **kw)
+
+
+def mk_add_event(ev: Event, step_name: Optional[str] = None) -> Any:
+    from workflows.runtime.types.ticks import TickAddEvent
+
+    return native(TickAddEvent, event=ev, step_name=step_name)
+
+
+def mk_step_result(step_name: str, worker_id: int, ev: Event, result: List[Any]) -> Any:
+    from workflows.runtime.types.ticks import TickStepResult
+
+    return native(TickStepResult.model_construct, step_name=step_name, worker_id=worker_id, event=ev, result=list(result))
+
+
 def conc(n: int, lo: int, hi: int) -> int:
     """Concretise a bounded symbolic int by explicit forks (one solver decision per value, then plain ints)."""
     for k in range(lo, hi):
